@@ -27,7 +27,7 @@ def getCtx : String × Int := ("let c = m_ctx()", 7777)
 def ctxAssert : String × Int := ("c", -32)
 
 def expected : List (String × List (String × Int)) := [
-  ("m_ctx_loop_events", [("(max_events > 0)", -22), ("(c->state == M_CTX_IDLE)", -22), ("!c->destroying", -22)]),
+  ("m_ctx_loop_events", [("(max_events > 0)", -22), ("(c->state == M_CTX_IDLE)", -22), ("!c->destroying", -22), ("!c->stopping", -22)]),
   ("ctx_new", [("do ?", 7777), ("let new_ctx = m_mem_new(sizeof(m_ctx_t), ctx_dtor)", 7777), ("new_ctx", -12)]),
   ("m_ctx", []),
   ("m_ctx_register", [("str_not_empty(ctx_name)", -22), ("do pthread_once(&key_once, make_key)", 7777), ("!pthread_getspecific(key)", -17), ("return ctx_new", 7778)]),
